@@ -1,39 +1,52 @@
 /-
 C09 — A feed is selected exactly when it can resolve the statement.
 
-Model: `ForML.Model.Matcher` (`Importer.Matcher`, `Importer.__init__/match`, `parser.bypass/visit_table/
-visit_reference/resolve_source`).  All theorems are for every statement, every advertised set and every pool
-(unbounded); `example`s are non-vacuity tests only.
+Models: `ForML.Model.Matcher` (`Importer.Matcher`, `Importer.__init__/match`, the source skeleton of the parser),
+`ForML.Model.MatcherConf` (pools built from `[FEED.x]` configuration sections: `Section/Provider/Feed._extract`,
+`Multi._lookup`, `Slot`), `ForML.Model.MatcherParser` (the parser as a stack machine: `Container`, `bypass`, `visit_*`,
+`resolve_source`, `fetch`; generic in the concrete parser).  All theorems are for every statement, every advertised
+set, every pool, every configuration section and every concrete parser (unbounded); `example`s are non-vacuity tests.
 
   C09_covers_spec          the matcher visitor computes exactly the coverage relation of the property text
   C09_covers_mono          advertising more never loses coverage
   C09_select               `match` returns feed i  ⇔  i covers and every other covering feed has lower priority, or the
                            same priority and a later position (highest priority, ties in construction order)
   C09_order_complete / C09_order_sorted   the importer's pool: every feed once, descending priority, ties in construction order
-  C09_select_none          no feed is returned  ⇔  no feed of the pool covers
-  C09_missing_error        `match` raises the missing-source error  ⇔  no feed of the pool covers
+  C09_select_none / C09_missing_error     no feed / the missing-source error  ⇔  no feed of the pool covers
   C09_select_explicit      an explicit instance that covers always beats the lazily configured feeds
   C09_match_history_independent   a sequence of match() calls on ONE importer (lru_cache state) answers every request with
                            the single-shot answer: selection is a function of (pool, statement) only
-  C09_resolves_iff_tables  the parser reports no unprovisioned source  ⇔  every table read is advertised
-                           (advertised joins / sets / queries / references do not help it)
-  C09_resolves_covers      resolves → covers            (the ← half of the agreement)
-  C09_passed_over          ¬ covers → ¬ resolves        (a feed passed over could not have parsed the statement)
-  C09_passed_over_pool     … for every feed iterated before the selected one
-  C09_agreement_full       covers ↔ resolves            — stated, FALSE for the code that exists:
-  C09_agreement_counterexample   a feed advertising only the (denormalised) join: matcher accepts, parser raises
-  C09_agreement_ref_counterexample   … the same for an advertised reference (`visit_reference` has no override)
-  C09_agreement_partial    covers ↔ resolves for feeds whose advertised sub-statements have their tables advertised too
-  C09_agreement_tables_only   … in particular for feeds advertising tables only
-  C09_selected_resolves_full     the selected feed's parser resolves the statement — stated, FALSE likewise:
-  C09_selected_resolves_counterexample / C09_selected_resolves_partial
+  C09_resolves_iff_tables / C09_parse_error / C09_resolves_covers   the source skeleton of the parser
+  C09_parser_ok / C09_parser_reports / C09_parser_no_report         the parser machine, any parser: it gets through only if every
+                           table read is advertised; the unprovisioned source it reports is the first unadvertised table read;
+                           none is reported when all are advertised
+  C09_passed_over          ¬ covers → no parser gets through   (a feed passed over could not have parsed the statement)
+  C09_passed_over_pool / C09_missing_nobody_parses   … every feed iterated before the selected one / everybody on MissingError
+  C09_agreement_full       any parser: parsesOk → covers, covers → no unprovisioned source — stated, FALSE for the code that exists:
+  C09_agreement_counterexample / C09_agreement_ref_counterexample   advertised join / reference: matcher accepts, parser raises
+  C09_agreement_partial / C09_agreement_iff / C09_agreement_tables_only   … for feeds whose advertised sub-statements have
+                           their tables advertised too
+  C09_selected_resolves_full / _counterexample / _partial   the pool form
+  C09_extract_priority / C09_extract_params / C09_params_subtable_untouched / C09_reserved_consumed   `Feed._extract`: what
+                           becomes the slot priority, what reaches the feed constructor
+  C09_conf_pool / C09_conf_match / C09_conf_missing / C09_conf_error   `io.Importer(setup.Feed(a), feed, …)`: the first covering
+                           member in descending CONFIGURED priority
+  C09_multi_pool / C09_multi_match / C09_multi_missing   `io.Importer(*instances, *setup.Feed.resolve([refs]))`
+  C09_reference_string_full   a member given by its reference string is the descriptor resolved from that section (repaired
+                           code, finding C09-F3 fixed); C09_reference_string_legacy_counterexample: the behaviour before
 -/
 import ForML.Model.Matcher
+import ForML.Model.MatcherConf
 import ForML.Lemmas.C09
+import ForML.Lemmas.C09Conf
+import ForML.Model.MatcherParser
+import ForML.Lemmas.C09Parser
 
 namespace ForML.Matcher
 
 open ForML.Dsl
+
+deriving instance DecidableEq for Except
 
 /-! ### the matcher is the coverage relation of the property text -/
 
@@ -188,12 +201,13 @@ theorem C09_match_after_history (pool : Pool) (before : List Source) (s : Source
   rw [C09_match_history_independent]
   simp
 
-/-! ### the parser's source resolution -/
+/-! ### the source skeleton of the parser (`parseSkeleton`: which tables are resolved, in which order, where the
+override replaces a symbol) -/
 
-/-- The parser gets through without an `UnprovisionedError` exactly when every table the statement reads is
-advertised: whatever else the feed advertises (joins, sets, sub-queries, references) makes no difference, because
-`bypass` runs the wrapped `visit_*` before it looks the override up and `visit_reference` has no override. -/
-theorem C09_resolves_iff_tables (S : Sources) : ∀ s, resolves S s = (tables s).all (adv S)
+/-- The skeleton gets through exactly when every table the statement reads is advertised: whatever else the feed
+advertises (joins, sets, sub-queries, references) makes no difference, because `bypass` runs the wrapped `visit_*`
+before it looks the override up and `visit_reference` has no override. -/
+theorem C09_resolves_iff_tables (S : Sources) : ∀ s, resolvesSkeleton S s = (tables s).all (adv S)
   | .table n fs => by simp [resolves_table, tables]
   | .ref inst n => by simp [resolves_ref, tables, C09_resolves_iff_tables S inst]
   | .join l r k c => by
@@ -203,23 +217,23 @@ theorem C09_resolves_iff_tables (S : Sources) : ∀ s, resolves S s = (tables s)
   | .query src sel pre grp post ord rows => by simp [resolves_query, tables, C09_resolves_iff_tables S src]
 
 /-- the error names a table the statement reads that the feed does not advertise -/
-theorem C09_parse_error (S : Sources) : ∀ s t, parse S s = .error t → t ∈ tables s ∧ adv S t = false
+theorem C09_parse_error (S : Sources) : ∀ s t, parseSkeleton S s = .error t → t ∈ tables s ∧ adv S t = false
   | .table n fs, t => by
-    rw [parse]
+    rw [parseSkeleton]
     cases h : adv S (.table n fs) <;> simp [tables]
     rintro rfl
     exact ⟨rfl, h⟩
   | .ref inst n, t => by
     have ih := C09_parse_error S inst t
-    rw [parse]
-    cases h : parse S inst <;> simp [tables]
+    rw [parseSkeleton]
+    cases h : parseSkeleton S inst <;> simp [tables]
     rintro rfl
     simpa [tables] using ih h
   | .join l r k c, t => by
     have ihl := C09_parse_error S l t
     have ihr := C09_parse_error S r t
-    rw [parse]
-    cases hl : parse S l <;> cases hr : parse S r <;> simp [tables]
+    rw [parseSkeleton]
+    cases hl : parseSkeleton S l <;> cases hr : parseSkeleton S r <;> simp [tables]
     all_goals rintro rfl
     · exact ⟨Or.inl (ihl hl).1, (ihl hl).2⟩
     · exact ⟨Or.inl (ihl hl).1, (ihl hl).2⟩
@@ -227,39 +241,81 @@ theorem C09_parse_error (S : Sources) : ∀ s t, parse S s = .error t → t ∈ 
   | .set l r k, t => by
     have ihl := C09_parse_error S l t
     have ihr := C09_parse_error S r t
-    rw [parse]
-    cases hl : parse S l <;> cases hr : parse S r <;> simp [tables]
+    rw [parseSkeleton]
+    cases hl : parseSkeleton S l <;> cases hr : parseSkeleton S r <;> simp [tables]
     all_goals rintro rfl
     · exact ⟨Or.inl (ihl hl).1, (ihl hl).2⟩
     · exact ⟨Or.inl (ihl hl).1, (ihl hl).2⟩
     · exact ⟨Or.inr (ihr hr).1, (ihr hr).2⟩
   | .query src sel pre grp post ord rows, t => by
     have ih := C09_parse_error S src t
-    rw [parse]
-    cases h : parse S src <;> simp [tables]
+    rw [parseSkeleton]
+    cases h : parseSkeleton S src <;> simp [tables]
     rintro rfl
     simpa [tables] using ih h
 
-/-! ### agreement of the matcher with the parser -/
-
-/-- a feed whose parser resolves the statement is accepted by the matcher -/
-theorem C09_resolves_covers (S : Sources) (s : Source) (h : resolves S s = true) : covers S s = true := by
+/-- a feed whose skeleton resolves the statement is accepted by the matcher -/
+theorem C09_resolves_covers (S : Sources) (s : Source) (h : resolvesSkeleton S s = true) : covers S s = true := by
   rw [C09_covers_spec]
   rw [C09_resolves_iff_tables] at h
   exact coversSpec_of_tables S s h
 
-/-- A feed passed over for lacking a source could not have parsed the statement. -/
-theorem C09_passed_over (S : Sources) (s : Source) (h : covers S s = false) : resolves S s = false := by
-  cases hr : resolves S s
-  · rfl
-  · rw [C09_resolves_covers S s hr] at h
+/-! ### the feed's parser as it is (the stack machine of `Model/MatcherParser.lean`), for EVERY concrete parser
+
+`Hooks σ τ` is everything a feed's `Reader.parser` supplies — its native symbols, every `generate_*`,
+`resolve_feature`, the `Tables` registry, `Source.features`, each of which may raise.  The theorems below quantify
+over all of them: they hold for the parser of any feed.  `parsesOk` = the parser gets through; `reportsUnprovisioned`
+= it raises the unprovisioned-source error (and for which source); `otherFailure` = it fails for another reason. -/
+
+section parser
+variable {σ τ : Type}
+
+/-- A parser that gets through has resolved every table the statement reads. -/
+theorem C09_parser_ok (H : Hooks σ τ) (S : Sources) (s : Source) (x : σ) (h : parseFull H S s = .ok x) :
+    (tables s).all (adv S) = true := by
+  rw [← C09_resolves_iff_tables]
+  exact (parseFull_sound H S s).1 x h
+
+/-- The unprovisioned source a parser reports is a table the statement reads which the feed does not advertise: the
+first one in visiting order (the one the source skeleton reports). -/
+theorem C09_parser_reports (H : Hooks σ τ) (S : Sources) (s t : Source)
+    (h : parseFull H S s = .error (.unprovisioned t)) :
+    parseSkeleton S s = .error t ∧ t ∈ tables s ∧ adv S t = false := by
+  have hp := (parseFull_sound H S s).2 t h
+  exact ⟨hp, C09_parse_error S s t hp⟩
+
+/-- If every table the statement reads is advertised, no parser reports an unprovisioned source (whatever else it may
+fail on). -/
+theorem C09_parser_no_report (H : Hooks σ τ) (S : Sources) (s : Source) (h : (tables s).all (adv S) = true) :
+    reportsUnprovisioned H S s = none := by
+  unfold reportsUnprovisioned
+  split
+  · rename_i t ht
+    have := (C09_parser_reports H S s t ht).1
+    rw [← C09_resolves_iff_tables] at h
+    unfold resolvesSkeleton at h
+    rw [this] at h
     cases h
+  · rfl
+
+/-! ### agreement of the matcher with the parser -/
+
+/-- A feed passed over for lacking a source could not have parsed the statement — whatever its parser is. -/
+theorem C09_passed_over (H : Hooks σ τ) (S : Sources) (s : Source) (h : covers S s = false) :
+    parsesOk H S s = false := by
+  unfold parsesOk
+  split
+  · rename_i x hx
+    have hr := (parseFull_sound H S s).1 x hx
+    rw [C09_resolves_covers S s hr] at h
+    cases h
+  · rfl
 
 /-- … in the pool: every feed the importer iterates before the selected one (higher priority, or the same priority
-and constructed earlier) could not have parsed the statement. -/
-theorem C09_passed_over_pool (pool : Pool) (s : Source) (i j : Nat) (f g : Slot)
+and constructed earlier) does not cover and could not have parsed the statement. -/
+theorem C09_passed_over_pool (H : Hooks σ τ) (pool : Pool) (s : Source) (i j : Nat) (f g : Slot)
     (hsel : select pool s = some i) (hi : pool[i]? = some f) (hj : pool[j]? = some g)
-    (hb : before (j, g) (i, f)) : covers g.sources s = false ∧ resolves g.sources s = false := by
+    (hb : before (j, g) (i, f)) : covers g.sources s = false ∧ parsesOk H g.sources s = false := by
   obtain ⟨f', hf', _, hall⟩ := (C09_select pool s i).mp hsel
   rw [hi] at hf'
   cases hf'
@@ -277,20 +333,29 @@ theorem C09_passed_over_pool (pool : Pool) (s : Source) (i j : Nat) (f g : Slot)
         · exact Or.inl h
         · exact Or.inr ⟨h.symm, hl⟩
       exact before_asymm hb hb'
-  exact ⟨hc, C09_passed_over _ _ hc⟩
+  exact ⟨hc, C09_passed_over H _ _ hc⟩
 
 /-- nobody covers ⇒ nobody could have parsed it -/
-theorem C09_missing_nobody_parses (pool : Pool) (s : Source) (h : importerMatch pool s = .error .missing) :
-    ∀ f ∈ pool, resolves f.sources s = false :=
-  fun f hf => C09_passed_over _ _ ((C09_missing_error pool s).mp h f hf)
+theorem C09_missing_nobody_parses (H : Hooks σ τ) (pool : Pool) (s : Source)
+    (h : importerMatch pool s = .error .missing) : ∀ f ∈ pool, parsesOk H f.sources s = false :=
+  fun f hf => C09_passed_over H _ _ ((C09_missing_error pool s).mp h f hf)
 
-/-- The property at full strength: the matcher accepts exactly the statements the feed's parser resolves. -/
-def C09_agreement_full : Prop := ∀ (S : Sources) (s : Source), covers S s = true ↔ resolves S s = true
+end parser
 
-/-- … and its pool form: the selected feed's parser resolves the statement. -/
+/-- The property at full strength, for every parser: a feed whose parser gets through is accepted by the matcher, and
+the parser of an accepted feed does not report an unprovisioned source. -/
+def C09_agreement_full : Prop :=
+  ∀ (σ τ : Type) (H : Hooks σ τ) (S : Sources) (s : Source),
+    (parsesOk H S s = true → covers S s = true) ∧ (covers S s = true → reportsUnprovisioned H S s = none)
+
+/-- … and its pool form: the selected feed's parser does not report an unprovisioned source. -/
 def C09_selected_resolves_full : Prop :=
-  ∀ (pool : Pool) (s : Source) (i : Nat) (f : Slot), select pool s = some i → pool[i]? = some f →
-    resolves f.sources s = true
+  ∀ (σ τ : Type) (H : Hooks σ τ) (pool : Pool) (s : Source) (i : Nat) (f : Slot),
+    select pool s = some i → pool[i]? = some f → reportsUnprovisioned H f.sources s = none
+
+/-- the free parser (what the harness' tuple parser builds) over a `Tables` registry that registers nothing -/
+def nullParser : Hooks Term Unit :=
+  freeHooks (fun _ => .ok []) () (fun _ _ => .ok ()) (fun _ _ => .ok ()) (fun _ _ => .ok []) (fun _ _ => .ok none)
 
 private def tA : Source := .table "A" [("id", .integer)]
 private def tB : Source := .table "B" [("id", .integer)]
@@ -302,49 +367,241 @@ for that join, its parser raises `UnprovisionedError` for `A` — the wrapped `v
 theorem C09_agreement_counterexample : ¬ C09_agreement_full := by
   intro h
   have h1 : covers [jAB] jAB = true := by decide
-  have h2 : resolves [jAB] jAB = false := by decide
-  rw [(h [jAB] jAB).mp h1] at h2
+  have h2 : reportsUnprovisioned nullParser [jAB] jAB = some tA := by decide
+  rw [(h _ _ nullParser [jAB] jAB).2 h1] at h2
   cases h2
 
 /-- finding C09-F2: the same for an advertised reference (`visit_reference` has no override at all) -/
 theorem C09_agreement_ref_counterexample :
     covers [rA] (.query rA .nil .none .nil .none .nil none) = true ∧
-    resolves [rA] (.query rA .nil .none .nil .none .nil none) = false := by decide
+    reportsUnprovisioned nullParser [rA] (.query rA .nil .none .nil .none .nil none) = some tA := by decide
 
 theorem C09_selected_resolves_counterexample : ¬ C09_selected_resolves_full := by
   intro h
-  have h2 : resolves [jAB] jAB = false := by decide
-  rw [h [⟨.inf, [jAB]⟩] jAB 0 ⟨.inf, [jAB]⟩ (by decide) rfl] at h2
+  have h2 : reportsUnprovisioned nullParser [jAB] jAB = some tA := by decide
+  rw [h _ _ nullParser [⟨.inf, [jAB]⟩] jAB 0 ⟨.inf, [jAB]⟩ (by decide) rfl] at h2
   cases h2
 
-/-- What holds for the code that exists: matcher and parser agree on every feed whose advertised sub-statements
-(the places where the matcher cuts its descent) have all their tables advertised as well. -/
-theorem C09_agreement_partial (S : Sources) (s : Source) (h : cutsProvisioned S s = true) :
-    covers S s = true ↔ resolves S s = true := by
+section parser
+variable {σ τ : Type}
+
+/-- What holds for the code that exists, for every parser: on a feed whose advertised sub-statements (the places where
+the matcher cuts its descent) have all their tables advertised as well, a parser that gets through implies the matcher
+accepts, and the parser of an accepted feed does not report an unprovisioned source. -/
+theorem C09_agreement_partial (H : Hooks σ τ) (S : Sources) (s : Source) (hc : cutsProvisioned S s = true) :
+    (parsesOk H S s = true → covers S s = true) ∧ (covers S s = true → reportsUnprovisioned H S s = none) := by
   constructor
-  · intro hc
-    rw [C09_covers_spec] at hc
-    rw [C09_resolves_iff_tables]
-    exact tables_of_cuts S s h hc
-  · exact C09_resolves_covers S s
+  · intro hp
+    cases hcv : covers S s
+    · rw [C09_passed_over H S s hcv] at hp
+      cases hp
+    · rfl
+  · intro h
+    apply C09_parser_no_report
+    rw [C09_covers_spec] at h
+    exact tables_of_cuts S s hc h
+
+/-- … and when the parser fails for no other reason (no unsupported construct, no failing `generate_*`, every column
+in scope), the matcher accepts exactly the statements the parser gets through. -/
+theorem C09_agreement_iff (H : Hooks σ τ) (S : Sources) (s : Source) (hc : cutsProvisioned S s = true)
+    (ho : otherFailure H S s = false) : covers S s = true ↔ parsesOk H S s = true := by
+  constructor
+  · intro h
+    have hr := (C09_agreement_partial H S s hc).2 h
+    unfold reportsUnprovisioned at hr
+    unfold otherFailure at ho
+    unfold parsesOk
+    cases hp : parseFull H S s with
+    | ok x => rfl
+    | error e =>
+      cases e <;> simp_all
+  · exact (C09_agreement_partial H S s hc).1
 
 /-- feeds that advertise tables only (every feed shipped with forml): matcher and parser agree on every statement -/
-theorem C09_agreement_tables_only (S : Sources) (s : Source) (h : tablesOnly S = true) :
-    covers S s = true ↔ resolves S s = true :=
-  C09_agreement_partial S s (cuts_of_tablesOnly h s)
+theorem C09_agreement_tables_only (H : Hooks σ τ) (S : Sources) (s : Source) (h : tablesOnly S = true) :
+    (parsesOk H S s = true → covers S s = true) ∧ (covers S s = true → reportsUnprovisioned H S s = none) :=
+  C09_agreement_partial H S s (cuts_of_tablesOnly h s)
 
-/-- the selected feed's parser resolves the statement, provided the selected feed's cuts are provisioned -/
-theorem C09_selected_resolves_partial (pool : Pool) (s : Source) (i : Nat) (f : Slot)
+/-- the selected feed's parser does not report an unprovisioned source, provided the selected feed's cuts are
+provisioned -/
+theorem C09_selected_resolves_partial (H : Hooks σ τ) (pool : Pool) (s : Source) (i : Nat) (f : Slot)
     (hsel : select pool s = some i) (hi : pool[i]? = some f) (h : cutsProvisioned f.sources s = true) :
-    resolves f.sources s = true := by
+    reportsUnprovisioned H f.sources s = none := by
   obtain ⟨f', hf', hc, _⟩ := (C09_select pool s i).mp hsel
   rw [hi] at hf'
   cases hf'
-  exact (C09_agreement_partial _ _ h).mp hc
+  exact (C09_agreement_partial H _ _ h).2 hc
+
+end parser
+
+/-! ### pools built from the configuration (`setup.Feed` descriptors resolved from `[FEED.x]` sections) -/
+
+/-- `Feed._extract`: the pool priority of a configured feed is the section's own `priority` option (0 when there is
+none) — whatever the `params` sub-table carries. -/
+theorem C09_extract_priority (ref : String) (kw : Options) (d : Descriptor) (h : feedExtract ref kw = .ok d) :
+    configuredPriority kw = .scalar (.num d.priority) :=
+  feedExtract_priority h
+
+/-- `Feed._extract`: the keyword arguments of the feed constructor, as a mapping, are the `params` sub-table first
+and the section's own generic options (everything but `priority`, `provider`, `params`) otherwise. -/
+theorem C09_extract_params (ref : String) (kw : Options) (d : Descriptor) (h : feedExtract ref kw = .ok d)
+    (k : String) : d.params.lookup k = ctorSpec kw k :=
+  feedExtract_params h k
+
+/-- … in particular every option of the `params` sub-table reaches the constructor untouched, whatever it is called
+(`priority`, `provider` and `params` included: that is what the sub-table is for). -/
+theorem C09_params_subtable_untouched (ref : String) (kw : Options) (d : Descriptor) (ps : List (String × Scalar))
+    (k : String) (v : Scalar) (h : feedExtract ref kw = .ok d) (hp : kw.lookup "params" = some (.table ps))
+    (hk : ps.lookup k = some v) : d.params.lookup k = some (.scalar v) := by
+  rw [C09_extract_params ref kw d h k]
+  simp [ctorSpec, hp, hk]
+
+/-- … and the options the config parser consumes itself never reach the constructor from the section's top level. -/
+theorem C09_reserved_consumed (ref : String) (kw : Options) (d : Descriptor) (k : String)
+    (h : feedExtract ref kw = .ok d) (hk : k ∈ reserved) (hp : ∀ ps, kw.lookup "params" = some (.table ps) → ps.lookup k = none) :
+    d.params.lookup k = none := by
+  rw [C09_extract_params ref kw d h k]
+  have hc : reserved.contains k = true := by simpa using hk
+  unfold ctorSpec
+  cases hq : kw.lookup "params" with
+  | none => simp only [if_pos hc]
+  | some v =>
+    cases v with
+    | scalar sv => simp only [if_pos hc]
+    | table ps => simp only [hp ps hq, if_pos hc]
+
+/-- The slots `io.Importer` builds from the members are the slots of their property-shaped reading: ∞ for an instance,
+the configured priority and the feed constructed from the generic options for a descriptor. -/
+theorem C09_conf_pool (members : List Member) (pool : Pool) (h : poolSingle members = .ok pool) (i : Nat) :
+    (members[i]?).bind Member.slotSpec = pool[i]? :=
+  poolSingle_get h i
+
+/-- Member `i` is the first covering one in descending *configured* priority (ties in argument order). -/
+def isFirstCoveringConf (members : List Member) (s : Source) (i : Nat) : Prop :=
+  ∃ f, (members[i]?).bind Member.slotSpec = some f ∧ covers f.sources s = true ∧
+    ∀ (j : Nat) (g : Slot), (members[j]?).bind Member.slotSpec = some g → covers g.sources s = true → j ≠ i →
+      g.prio.lt f.prio = true ∨ (g.prio = f.prio ∧ i < j)
+
+/-- `io.Importer(setup.Feed(a), feed, …).match(s)` returns member `i` iff `i` is the first covering member in
+descending configured priority. -/
+theorem C09_conf_match (members : List Member) (pool : Pool) (s : Source) (i : Nat)
+    (h : poolSingle members = .ok pool) : matchConf members s = .ok (.ok i) ↔ isFirstCoveringConf members s i := by
+  have hm : matchConf members s = .ok (importerMatch pool s) := by simp [matchConf, h]
+  rw [hm]
+  have : (Except.ok (importerMatch pool s) : Except ConfErr (Except MatchError Nat)) = .ok (.ok i) ↔
+      importerMatch pool s = .ok i := by simp
+  rw [this, C09_match_ok]
+  unfold isFirstCovering isFirstCoveringConf
+  simp only [poolSingle_get h]
+
+/-- … and raises the missing-source error iff no member covers. -/
+theorem C09_conf_missing (members : List Member) (pool : Pool) (s : Source) (h : poolSingle members = .ok pool) :
+    matchConf members s = .ok (.error .missing) ↔
+      ∀ (j : Nat) (g : Slot), (members[j]?).bind Member.slotSpec = some g → covers g.sources s = false := by
+  have hm : matchConf members s = .ok (importerMatch pool s) := by simp [matchConf, h]
+  rw [hm]
+  have : (Except.ok (importerMatch pool s) : Except ConfErr (Except MatchError Nat)) = .ok (.error .missing) ↔
+      importerMatch pool s = .error .missing := by simp
+  rw [this, C09_missing_error]
+  simp only [poolSingle_get h]
+  constructor
+  · intro hall j g hj
+    exact hall g (List.mem_of_getElem? hj)
+  · intro hall f hf
+    obtain ⟨k, hk, hkf⟩ := List.mem_iff_getElem.mp hf
+    exact hall k f (by simp [List.getElem?_eq_getElem hk, hkf])
+
+/-- a pool cannot be built iff some section is missing or malformed (and the error is that section's) -/
+theorem C09_conf_error (members : List Member) (s : Source) (e : ConfErr) (h : matchConf members s = .error e) :
+    ∃ m ∈ members, slotOf m = .error e := by
+  unfold matchConf at h
+  cases hp : poolSingle members with
+  | ok pool => simp [hp] at h
+  | error e' =>
+    simp only [hp, Except.error.injEq] at h
+    subst h
+    exact poolSingle_error hp
+
+/-- A pool member given by its reference string (`io.Importer` documents `Union[setup.Feed, str, io.Feed]`) stands for
+the descriptor resolved from that section of the configuration: to which `C09_conf_match` / `C09_conf_missing` /
+`C09_conf_error` apply.  (For the code as repaired by fixes/C09-slot-reference-string.diff, finding C09-F3.) -/
+theorem C09_reference_string_full (args : List Arg) (s : Source) :
+    matchArgs args s = matchConf (args.map Arg.toMember) s :=
+  matchArgs_eq args s
+
+/-- Before the repair this was false: `Slot.__init__` kept the 1-tuple `setup.Feed.resolve(str)` returns as the slot's
+instance, and `match` raised `AttributeError` when it reached it. -/
+theorem C09_reference_string_legacy_counterexample :
+    ¬ ∀ (args : List Arg) (s : Source), matchArgsLegacy args s = liftMatch (matchConf (args.map Arg.toMember) s) := by
+  intro h
+  have h1 := h [.reference "a" (some [("priority", .scalar (.num 2))]) (fun _ => [.table "A" [("id", .integer)]])]
+    (.table "A" [("id", .integer)])
+  revert h1
+  decide
+
+/-- `io.Importer(*instances, *setup.Feed.resolve([refs]))`: the pool holds every member exactly as its
+property-shaped reading says (`Multi._lookup` only re-orders the descriptors). -/
+theorem C09_multi_pool (members : List Member) (tagged : List (Nat × Slot)) (h : poolMulti members = .ok tagged)
+    (z : Nat × Slot) : z ∈ tagged ↔ (members[z.1]?).bind Member.slotSpec = some z.2 :=
+  mem_poolMulti h z
+
+/-- … so the member returned covers the statement and no covering member has a higher configured priority … -/
+theorem C09_multi_match (members : List Member) (tagged : List (Nat × Slot)) (s : Source) (i : Nat)
+    (h : poolMulti members = .ok tagged) (hs : selectMulti members s = .ok (some i)) :
+    ∃ f, (members[i]?).bind Member.slotSpec = some f ∧ covers f.sources s = true ∧
+      ∀ (j : Nat) (g : Slot), (members[j]?).bind Member.slotSpec = some g → covers g.sources s = true → f.prio.lt g.prio = false := by
+  simp only [selectMulti, h, Except.ok.injEq] at hs
+  cases hk : select (tagged.map (·.2)) s with
+  | none => simp [hk] at hs
+  | some k =>
+    simp only [hk, Option.bind_some, Option.map_eq_some_iff] at hs
+    obtain ⟨⟨i', f⟩, htk, rfl⟩ := hs
+    obtain ⟨f', hf', hc, hall⟩ := (C09_select _ s k).mp hk
+    have hff : f' = f := by
+      simp only [List.getElem?_map, htk, Option.map_some, Option.some.injEq] at hf'
+      exact hf'.symm
+    subst hff
+    refine ⟨f', (mem_poolMulti h (i', f')).mp (List.mem_of_getElem? htk), hc, ?_⟩
+    intro j g hj hg
+    have hmem : (j, g) ∈ tagged := (mem_poolMulti h (j, g)).mpr hj
+    obtain ⟨p, hp, hpe⟩ := List.mem_iff_getElem.mp hmem
+    have hpool : (tagged.map (·.2))[p]? = some g := by
+      simp [List.getElem?_map, List.getElem?_eq_getElem hp, hpe]
+    by_cases hpk : p = k
+    · subst hpk
+      rw [hf'] at hpool
+      cases hpool
+      exact Prio.lt_irrefl _
+    · rcases hall p g hpool hg hpk with hlt | ⟨he, _⟩
+      · exact Prio.lt_asymm hlt
+      · rw [he]; exact Prio.lt_irrefl _
+
+/-- … and the missing-source error is raised iff no member covers. -/
+theorem C09_multi_missing (members : List Member) (tagged : List (Nat × Slot)) (s : Source)
+    (h : poolMulti members = .ok tagged) :
+    selectMulti members s = .ok none ↔
+      ∀ (j : Nat) (g : Slot), (members[j]?).bind Member.slotSpec = some g → covers g.sources s = false := by
+  simp only [selectMulti, h, Except.ok.injEq]
+  constructor
+  · intro hs j g hj
+    have hmem : (j, g) ∈ tagged := (mem_poolMulti h (j, g)).mpr hj
+    cases hk : select (tagged.map (·.2)) s with
+    | none =>
+      exact (C09_select_none _ s).mp hk g (List.mem_map.mpr ⟨(j, g), hmem, rfl⟩)
+    | some k =>
+      exfalso
+      obtain ⟨f', hf', _, _⟩ := (C09_select _ s k).mp hk
+      simp only [hk, Option.bind_some, Option.map_eq_none_iff] at hs
+      simp [List.getElem?_map, hs] at hf'
+  · intro hall
+    have : select (tagged.map (·.2)) s = none := by
+      rw [C09_select_none]
+      intro f hf
+      obtain ⟨⟨j, g⟩, hz, rfl⟩ := List.mem_map.mp hf
+      exact hall j g ((mem_poolMulti h (j, g)).mp hz)
+    simp [this]
 
 /-! ### non-vacuity (tests on concrete objects, not part of the claim) -/
-
-deriving instance DecidableEq for Except
 
 private def qAB : Source := .query jAB .nil .none .nil .none .nil none
 
@@ -352,7 +609,13 @@ private def qAB : Source := .query jAB .nil .none .nil .none .nil none
 example : cutsProvisioned [jAB, tA, tB] qAB = true ∧ covers [jAB, tA, tB] qAB = true := by decide
 example : cutsProvisioned [tA] qAB = true ∧ covers [tA] qAB = false := by decide
 example : cutsProvisioned [jAB] qAB = false := by decide
-example : tablesOnly [tA, tB] = true ∧ covers [tA, tB] qAB = true ∧ resolves [tA, tB] qAB = true := by decide
+example : tablesOnly [tA, tB] = true ∧ covers [tA, tB] qAB = true ∧ resolvesSkeleton [tA, tB] qAB = true ∧
+    parsesOk nullParser [tA, tB] qAB = true := by decide
+-- the hypotheses of `C09_agreement_iff` hold in both outcomes
+example : cutsProvisioned [jAB, tA, tB] qAB = true ∧ otherFailure nullParser [jAB, tA, tB] qAB = false ∧
+    parsesOk nullParser [jAB, tA, tB] qAB = true := by decide
+example : cutsProvisioned [tA] qAB = true ∧ otherFailure nullParser [tA] qAB = false ∧ parsesOk nullParser [tA] qAB = false ∧
+    reportsUnprovisioned nullParser [tA] qAB = some tB := by decide
 -- selection: priorities 3 / inf / 3 / 7, ties in construction order, explicit instance first, nobody covers
 example : select [⟨.fin 3, [tA]⟩, ⟨.fin 3, [tA, tB]⟩, ⟨.fin 3, [jAB]⟩] qAB = some 1 := by decide
 example : select [⟨.fin 3, [tA, tB]⟩, ⟨.fin 7, [jAB]⟩, ⟨.inf, [tB]⟩] qAB = some 1 := by decide
@@ -361,7 +624,49 @@ example : importerMatch [⟨.fin 9, [tA]⟩, ⟨.inf, [tB]⟩] qAB = .error .mis
 example : matchSeq [⟨.fin 9, [tA]⟩, ⟨.fin 1, [tA, tB]⟩] [qAB, tA, qAB, tB, tA] = [.ok 1, .ok 0, .ok 1, .ok 1, .ok 0] := by decide
 example : (order [⟨.fin 3, []⟩, ⟨.inf, []⟩, ⟨.fin 3, []⟩, ⟨.fin 7, []⟩]).map (·.1) = [1, 3, 0, 2] := by decide
 -- the parser's result skeleton: the override replaces the join only after both tables were resolved
-example : parse [jAB, tA, tB] qAB = .ok (.query (.native jAB)) := by decide
-example : parse [jAB, tB] qAB = .error tA := by decide
+example : parseSkeleton [jAB, tA, tB] qAB = .ok (.query (.native jAB)) := by decide
+example : parseSkeleton [jAB, tB] qAB = .error tA := by decide
+-- the parser machine: the override replaces the symbol after the wrapped visit; columns resolve through the origins registry
+example : parseFull nullParser [jAB, tA, tB] jAB = .ok (.native jAB) := by decide
+example : parseFull nullParser [tA, tB] (.query jAB (.cons (.elem tA "id") .nil) .none .nil .none .nil none)
+    = .ok (.query (.join (.native tA) (.native tB) .cross)) := by decide
+example : parseFull nullParser [tA] (.query rA (.cons (.elem rA "id") .nil) .none .nil .none .nil none)
+    = .ok (.query (.ref (.native tA) "r")) := by decide
+-- a nested query has a context of its own: a column of its table is not in scope outside (`KeyError`, no unprovisioned source)
+example : parseFull nullParser [tA] (.query (.query tA (.cons (.elem tA "id") .nil) .none .nil .none .nil none)
+    (.cons (.elem tA "id") .nil) .none .nil .none .nil none) = .error (.keyError tA) := by decide
+example : otherFailure nullParser [tA, tB] (.query tA (.cons (.elem tB "id") .nil) .none .nil .none .nil none) = true := by
+  decide
+
+-- configured pools: a `priority` inside `params` is a constructor option, not the pool priority
+private def secA : Options :=
+  [("provider", .scalar (.text "p")), ("priority", .scalar (.num 2)),
+   ("params", .table [("identity", .text "alpha"), ("priority", .num 100)])]
+private def secB : Options := [("provider", .scalar (.text "p")), ("priority", .scalar (.num 20)), ("region", .scalar (.text "eu"))]
+private def secC : Options := [("params", .table [("priority", .num 100)])]
+example : (feedExtract "a" secA).toOption.map (fun d => (d.reference, d.priority, d.params.lookup "priority", d.params.lookup "identity"))
+    = some ("p", 2, some (.scalar (.num 100)), some (.scalar (.text "alpha"))) := by decide
+example : (feedExtract "c" secC).toOption.map (fun d => (d.reference, d.priority, d.params.lookup "priority")) =
+    some ("c", 0, some (.scalar (.num 100))) := by decide
+example : matchConf [.conf "a" (some secA) (fun _ => [tA, tB]), .conf "b" (some secB) (fun _ => [tA, tB])] qAB = .ok (.ok 1) := by
+  decide
+example : matchConf [.conf "c" (some secC) (fun _ => [tA, tB]), .inst [tA], .conf "b" (some secB) (fun _ => [tA, tB])] qAB
+    = .ok (.ok 2) := by decide
+example : matchConf [.conf "a" (some secA) (fun _ => [tA, tB]), .conf "z" none (fun _ => [])] qAB = .error .missing := by decide
+example : feedExtract "x" [("priority", .scalar (.text "high"))] = .error .valueError := by decide
+-- the feed constructed depends on the options it receives
+example : matchConf [.conf "a" (some secA) (fun kw => if kw "priority" = some (.scalar (.num 100)) then [tA, tB] else [])] qAB
+    = .ok (.ok 0) := by decide
+-- a member given by its reference string is the configured feed (priority 1 here, against 10 and ∞) …
+example : matchArgs [.reference "a" (some secA) (fun _ => [tA, tB])] qAB = .ok (.ok 0) := by decide
+example : matchArgs [.reference "a" (some secA) (fun _ => [tA, tB]), .member (.conf "b" (some secB) (fun _ => [tA, tB]))] qAB
+    = .ok (.ok 1) := by decide
+example : matchArgs [.member (.inst [tA]), .reference "a" (some secA) (fun _ => [tA, tB])] qAB = .ok (.ok 1) := by decide
+example : matchArgs [.reference "z" none (fun _ => [tA, tB])] qAB = .error .missing := by decide
+-- … before the repair: `AttributeError` when reached
+example : matchArgsLegacy [.reference "a" (some secA) (fun _ => [tA, tB])] qAB = .ok (.error .attributeError) := by decide
+-- through `setup.Feed.resolve`: equal priorities are ordered by the provider reference
+example : selectMulti [.conf "a" (some [("provider", .scalar (.text "zeta"))]) (fun _ => [tA, tB]),
+    .conf "b" (some [("provider", .scalar (.text "alpha"))]) (fun _ => [tA, tB])] qAB = .ok (some 1) := by decide
 
 end ForML.Matcher
